@@ -210,7 +210,9 @@ unsafe fn run(data: &[u8]) {
         1 => (Some(b"{\"a\":\"kkk\",\"k\":\"amader\",\"am\":\"\"}"), None),
         // valid JSON syntax, but the bytes are Latin-1 / stray continuation bytes, not UTF-8
         2 => (Some(b"{\"a\":\"caf\xE9 noir\",\"k\":\"\xFF\xFE\",\"am\":\"x\xC3\"}"), Some(b"{\"a\":\"\xE9\"}")),
-        3 => (Some("{\"a\":\"\u{1F600}\",\"k\":\"\u{0995}\u{09BE}\",\"am\":\"\u{2764}\u{FE0F} ok\"}".as_bytes()), Some("{\"a\":\"\u{0986}\u{0983}\",\"k\":\"\"}".as_bytes())),
+        // (the value of "k" carries a TAB and a line feed, written as JSON escapes: control characters other than NUL
+        // are ordinary characters of a C string and must come out as they went in)
+        3 => (Some("{\"a\":\"\u{1F600}\",\"k\":\"\u{0995}\\t\u{09BE}\\n\",\"am\":\"\u{2764}\u{FE0F} ok\"}".as_bytes()), Some("{\"a\":\"\u{0986}\u{0983}\",\"k\":\"\"}".as_bytes())),
         4 => (Some(b"{\"a\":\"kk"), Some(b"{\"a\":")),
         5 => (Some(b"{\"a\":\"a\\u0000b\",\"k\":\"\\ud83d\"}"), Some(b"[1,2,3]")),
         _ => (None, None),
